@@ -30,9 +30,9 @@ func (c15) Meta() Meta {
 
 func c15Params(tier string) (nGenQ, nGenT, broken int) {
 	if tier == "thorough" {
-		return 60, 600, 30
+		return 400, 5000, 12
 	}
-	return 60, 600, 6
+	return 400, 5000, 6
 }
 
 func (p c15) NumUnits(tier string, seed int64) int {
@@ -104,6 +104,14 @@ func (p c15) check(rc Recipe, st State, rep *runner.Reporter) {
 	fileRange := hcl.Range{Filename: st.File, Start: hcl.InitialPos, End: hcl.Pos{Byte: len(f.Bytes) + 1}}
 	want := model.Validate(body, model.EffRoot(pc.Schema), false, false, fileRange)
 	dyn := dynamicRanges(body)
+	dynKnown, dynUnkZone := dynamicBlocksKnown(body, pc.Schema)
+	for _, known := range dynKnown {
+		if known {
+			rep.Count("dynamic_blocks_known_to_their_body", 1)
+		} else {
+			rep.Count("dynamic_blocks_unknown_to_their_body", 1)
+		}
+	}
 	inDyn := func(r *hcl.Range) bool {
 		if r == nil {
 			return false
@@ -136,6 +144,26 @@ func (p c15) check(rc Recipe, st State, rep *runner.Reporter) {
 			rep.Violation(&runner.Witness{Sig: "DIAG no-subject rule=" + rule, What: "diagnostic without a subject range: " + d.Summary, Unit: unit, Files: filesOf(ws)})
 			continue
 		}
+		if rule == "unexpected-block" && name == "dynamic" {
+			// whether a body knows dynamic blocks is decided by the propagation model
+			// (DynamicBlocks of the static body, handed down to the nested blocks of
+			// every merged body): a known dynamic block must not be reported
+			// (the diagnostic's subject lies on the header of the block it is about)
+			var inner *hcl.Range
+			for dr := range dynKnown {
+				dr := dr
+				if within(*d.Subject, dr) {
+					inner = &dr
+				}
+			}
+			if inner != nil && dynKnown[*inner] {
+				rep.Violation(&runner.Witness{Sig: "DIAG surplus error/unexpected-block dynamic-block-known-here", What: "validation reports a dynamic block as unexpected in a body whose schema has the DynamicBlocks extension (own or propagated)",
+					Unit: unit, Files: filesOf(ws), Query: q.String(), Observed: fmtRange(*d.Subject)})
+			}
+			if inner != nil {
+				rep.Distinct("dynamic_blocks_reported_unexpected", fmt.Sprintf("%s|%s|%d", rc, st.File, inner.Start.Byte))
+			}
+		}
 		if inDyn(d.Subject) || (name == "dynamic" && (rule == "too-many-labels" || rule == "not-enough-labels")) {
 			rep.Count("diags_in_dynamic_zone", 1)
 			continue
@@ -146,6 +174,27 @@ func (p c15) check(rc Recipe, st State, rep *runner.Reporter) {
 		}
 		rules[rule] = true
 		gotItems = append(gotItems, item{fmt.Sprintf("%s/%s/%s", sev, rule, name), *d.Subject})
+	}
+	// the converse: a dynamic block written in a body (of known schema) that does not
+	// know dynamic blocks is an unexpected block
+	if st.Mut.Kind == "none" || st.Mut.Kind == "" {
+		for hdr, known := range dynKnown {
+			if known || dynUnkZone[hdr] {
+				continue
+			}
+			reported := false
+			for _, d := range diags {
+				_, rule, name := model.RuleOf(d)
+				if rule == "unexpected-block" && name == "dynamic" && d.Subject != nil && within(*d.Subject, hdr) {
+					reported = true
+				}
+			}
+			if !reported {
+				hdr := hdr
+				rep.Violation(&runner.Witness{Sig: "DIAG missing error/unexpected-block dynamic-block-unknown-here", What: "a dynamic block written in a body whose schema does not have the DynamicBlocks extension is not reported as unexpected",
+					Unit: unit, Files: filesOf(ws), Query: q.String(), Observed: fmtRange(hdr)})
+			}
+		}
 	}
 	// multiset comparison
 	count := func(items []item) map[string]int {
